@@ -177,4 +177,33 @@ def c12_d(ctx: Ctx):
     return out
 
 
-RULES = [c12_a, c12_b, c12_c, c12_d]
+@rule("C12-e")
+def c12_e(ctx: Ctx):
+    """No caller makes Job.init() conditional on the job directory not existing: init() itself is the idempotent, racing-creator-tolerant step (save-if-absent + validation)."""
+    R = "C12-e"
+    out = []
+    for g in ctx.prog.funcs.values():
+        if g.module.is_dep or not g.module.name.startswith("signac"):
+            continue
+        for c in body_nodes(g):
+            if not (isinstance(c, ast.Call) and isinstance(c.func, ast.Attribute) and c.func.attr == "init" and not c.args and INIT in common.targets_of(ctx, g, c)):
+                continue
+            recv = canon(c.func.value)
+            facts = common.facts_at(ctx, g, c, "nx")
+            gate = [(t, pol) for (t, pol) in facts if
+                    t.replace(" ", "").startswith(recv + "in") or t.replace(" ", "").startswith(recv + "notin")
+                    or (("os.path.exists(" in t or "os.path.isdir(" in t or "os.path.lexists(" in t) and (recv + ".path" in t or recv + ".ws" in t or recv + ".fn(" in t))
+                    or recv + ".isfile(" in t]
+            k = f"{g.qual}|init-call|{recv}"
+            if gate:
+                out.append(ctx.viol(R, g, c, f"{recv}.init() runs only under the existence test {gate[0][0]!r}: a job directory that another process has just created (or left behind by a "
+                                    "crash) without its state point file is then taken for an initialised job and never completed, the caller reports success and the next reader gets "
+                                    "JobsCorruptedError; init() must be called unconditionally, it is idempotent", construct=k))
+            else:
+                out.append(ctx.ok(R, g, c, f"{recv}.init() is not conditional on an existence test of the job", construct=k))
+    if not out:
+        out.append(ctx.inc(R, None, None, "no Job.init() call site found"))
+    return out
+
+
+RULES = [c12_a, c12_b, c12_c, c12_d, c12_e]
